@@ -14,6 +14,7 @@ import (
 	"sort"
 	"strconv"
 	"sync"
+	"syscall"
 )
 
 // Lane is one (build flavour, number of cases) pair of a property's plan.
@@ -230,8 +231,18 @@ func (r *Recorder) Close(done bool) {
 	r.out.Close()
 }
 
-// Cursor persists the index of the case about to run
-type Cursor struct{ f *os.File }
+// Cursor persists the index of the case about to run, and (Note) a description
+// of the call in flight, in a MAP_SHARED file so that both survive the death
+// of the process without a system call per update.
+type Cursor struct {
+	f    *os.File
+	note []byte
+}
+
+// TheCursor is the cursor of this process
+var TheCursor = &Cursor{}
+
+const noteSize = 16384
 
 // OpenCursor creates the cursor file
 func OpenCursor(path string) *Cursor {
@@ -242,7 +253,29 @@ func OpenCursor(path string) *Cursor {
 	if err != nil {
 		return &Cursor{}
 	}
-	return &Cursor{f: f}
+	c := &Cursor{f: f}
+	if nf, err := os.OpenFile(path+".note", os.O_CREATE|os.O_RDWR|os.O_TRUNC, 0o644); err == nil {
+		if nf.Truncate(noteSize) == nil {
+			if m, err := syscall.Mmap(int(nf.Fd()), 0, noteSize, syscall.PROT_READ|syscall.PROT_WRITE, syscall.MAP_SHARED); err == nil {
+				c.note = m
+			}
+		}
+		nf.Close()
+	}
+	TheCursor = c
+	return c
+}
+
+// Note records what is about to be executed (kept short)
+func (c *Cursor) Note(parts ...string) {
+	if c.note == nil {
+		return
+	}
+	n := 0
+	for _, p := range parts {
+		n += copy(c.note[n:noteSize-1], p)
+	}
+	c.note[n] = 0
 }
 
 // Set records idx
